@@ -100,6 +100,23 @@ func (c *localCache) Modify(ctx context.Context, name string, opts *Opts, dels [
 	//
 	var err error
 	for _, del := range dels {
+		switch opts.Store {
+		case cachepb.Store_CONFIG, cachepb.Store_STATE:
+			// The config and state store keys are the comma joined path elements and DeletePrefix
+			// matches on the raw string. Deleting e.g. "interface,eth1" must not delete "interface,eth10"
+			// or a sibling "interface,eth1x". So delete the exact key and everything below the
+			// path (prefix terminated with the delimiter) separately.
+			if len(del) > 0 {
+				err = c.c.DeleteValue(ctx, name, &cache.Opts{
+					Store: getStore(opts.Store),
+					Path:  [][]string{del},
+				})
+				if err != nil {
+					return err
+				}
+				del = append(append(make([]string, 0, len(del)+1), del...), "")
+			}
+		}
 		err = c.c.DeletePrefix(ctx, name, &cache.Opts{
 			Store:    getStore(opts.Store),
 			Path:     [][]string{del}, // TODO:
